@@ -56,7 +56,10 @@ Nested == Len(lv) - 1
 TextOf(L) == IF L.wrapped THEN L.wtext ELSE L.remote
 HasTb(L) == L.live # <<>>
 IsRemote(L) == L.remote # <<>>
-Wrappable(L) == HasTb(L) \/ (IsRemote(L) /\ ReuseRemoteText)
+Wrappable(L) == HasTb(L) \/ IsRemote(L)
+\* RemoteException(obj) wraps every bare member of an EnsembleError, recursively (452-463): each of them must carry a
+\* traceback or a remote text, else the constructor raises ValueError (before it has changed anything)
+AllWrappable == \A i \in 1..Len(lv) : lv[i].wrapped \/ Wrappable(lv[i])
 
 Init ==
   /\ lv = << Level("exc", "C", "A", 0) >>
@@ -96,15 +99,16 @@ Raise ==
 
 \* RemoteException(obj).  For an EnsembleError every member that is a bare exception is wrapped in place (452-463).
 Wrap ==
-  /\ ~Top.wrapped /\ Wrappable(Top)
+  /\ ~Top.wrapped /\ AllWrappable
   /\ lv' = [i \in 1..Len(lv) |-> WrapLevel(lv[i])]
   /\ refused' = FALSE
   /\ UNCHANGED nraise
   /\ Log("Wrap", 0)
 
-\* RemoteException(obj) on an object with neither a traceback nor a remote text: ValueError, nothing changes
+\* RemoteException(obj) on an object (or with a bare member) with neither a traceback nor a remote text: ValueError,
+\* nothing changes
 WrapRefused ==
-  /\ ~Top.wrapped /\ ~Wrappable(Top) /\ ~refused
+  /\ ~Top.wrapped /\ ~AllWrappable /\ ~refused
   /\ refused' = TRUE
   /\ UNCHANGED <<lv, nraise>>
   /\ Log("WrapRefused", 0)
@@ -126,7 +130,7 @@ HopEnsemble ==
 
 \* an exception that arrived from another process is passed on without being raised: Wrap + Hop
 Forward ==
-  /\ ~Top.wrapped /\ ~HasTb(Top) /\ IsRemote(Top) /\ ReuseRemoteText
+  /\ ~Top.wrapped /\ ~HasTb(Top) /\ IsRemote(Top) /\ AllWrappable
   /\ lv' = [i \in 1..Len(lv) |-> HopLevel(WrapLevel(lv[i]))]
   /\ refused' = FALSE
   /\ UNCHANGED nraise
@@ -135,7 +139,7 @@ Forward ==
 \* Ensemble servlet: `y = RemoteException(y)`, `z['y'][k] = y`, `raise EnsembleError(z)` (caught at once)
 NestInEnsemble(k) ==
   /\ Nested < MaxNest /\ nraise < MaxRaise
-  /\ Top.wrapped \/ Wrappable(Top)
+  /\ Top.wrapped \/ AllWrappable
   /\ nraise' = nraise + 1
   /\ lv' = Append([i \in 1..Len(lv) |-> WrapLevel(lv[i])],
                   [Level("ens", "Ens", "Res", k) EXCEPT !.live = <<nraise + 1>>, !.origin = nraise + 1])
